@@ -2,6 +2,7 @@ SPECIFICATION Spec
 CONSTANTS
   Thr = {"A", "B", "C"}
   Steps = 5
+  LazyTable = FALSE
   SharedWorkspace = FALSE
   Export = FALSE
 INVARIANT Inv
